@@ -47,8 +47,11 @@ func runC05(rc *RunCtx) {
 	fr := Framing(t.Choose(2))
 	lenient := t.Choose(2) == 1
 	baseClass := t.Choose(5)
-	servers := []string{"plc-a:502", "plc-b:502", "tcp://plc-c:1502"}[:1+t.Pick(3, 2, 1)]
-	nunits := 1 + t.Pick(3, 2, 1)
+	// server addresses and unit ids include pairs that collide under careless concatenation ("plc1"+"11" == "plc11"+"1")
+	pool := [][]string{{"plc-a:502", "plc-b:502", "tcp://plc-c:1502"}, {"plc1", "plc11", "plc111"}, {"10.0.0.7:50", "10.0.0.7:502", "10.0.0.7:5020"}}[t.Pick(3, 1, 1)]
+	servers := pool[:1+t.Pick(3, 2, 1)]
+	unitPool := []uint8{1, 2, 3, 11, 0, 20, 21, 255, 12, 112}
+	nunits := 1 + t.Pick(3, 2, 1, 1)
 	nf := 1 + t.Pick(2, 3, 3, 2)*4 + t.Choose(4)
 	if nf > 40 {
 		nf = 40
@@ -82,7 +85,7 @@ func runC05(rc *RunCtx) {
 		}
 		if f.ServerAddress == "" {
 			f.ServerAddress = servers[t.Choose(len(servers))]
-			f.UnitID = uint8(1 + t.Choose(nunits))
+			f.UnitID = unitPool[t.Choose(nunits)]
 		}
 		fields = append(fields, f)
 		if f.Type != modbus.FieldTypeCoil {
@@ -96,16 +99,29 @@ func runC05(rc *RunCtx) {
 	b := modbus.NewRequestBuilder("", 0).AddAll(fields)
 	var reqs []modbus.BuilderRequest
 	var berr error
-	switch {
-	case holding && fr == TCP:
-		reqs, berr = b.ReadHoldingRegistersTCP()
-	case holding:
-		reqs, berr = b.ReadHoldingRegistersRTU()
-	case fr == TCP:
-		reqs, berr = b.ReadInputRegistersTCP()
-	default:
-		reqs, berr = b.ReadInputRegistersRTU()
+	build := func() ([]modbus.BuilderRequest, error) {
+		switch {
+		case holding && fr == TCP:
+			return b.ReadHoldingRegistersTCP()
+		case holding:
+			return b.ReadHoldingRegistersRTU()
+		case fr == TCP:
+			return b.ReadInputRegistersTCP()
+		default:
+			return b.ReadInputRegistersRTU()
+		}
 	}
+	// a builder is a reusable description: asking it for other kinds of requests first, or twice, must change nothing
+	switch t.Pick(3, 1, 1, 1) {
+	case 1:
+		b.ReadCoilsTCP()
+	case 2:
+		build()
+	case 3:
+		b.ReadDiscreteInputsRTU()
+		b.ReadInputRegistersTCP()
+	}
+	reqs, berr = build()
 	fn := "fc4"
 	tab := TabInput
 	if holding {
